@@ -191,6 +191,30 @@ func c06Chain(env *core.Env, a, op1, b, op2, c string) {
 func runC06(env *core.Env) {
 	forms := c06Forms()
 	n := 0
+	// operands that themselves iterate (a nested criterion) next to operands that read the outer item: the outer item
+	// is still the outer item afterwards, on either side of the operator
+	{
+		nested := []string{"given.exists($this.length() > 2)", "given.all($this != 'zz')", "given.where($this = 'Ann').exists()", "given.select($this.length()).exists($this > 3)", "given.exists($this = 'Bob').not()", "given.select($this & 'x').all($this.length() > 1)"}
+		plain := []string{"family = 'Smith'", "use.exists()", "family.length() > 4", "use = 'official'", "period.exists()", "family.exists()"}
+		for _, op := range []string{"and", "or", "xor"} {
+			for _, a := range nested {
+				for _, b := range plain {
+					n++
+					if !env.Mine(n) {
+						continue
+					}
+					env.Cover("nested-criteria")
+					for _, recv := range []string{"Patient.name", "Patient.contact.name", "Patient.name.tail()"} {
+						if strings.Contains(recv, "|") {
+							continue
+						}
+						c06Prog(env, "nested-criteria", fmt.Sprintf("%s.where(%s %s %s).count() = %s.where(%s %s %s).count()", recv, a, op, b, recv, b, op, a), "T")
+						c06Prog(env, "nested-criteria", fmt.Sprintf("%s.select(iif(%s, family, 'none')) = %s.select(iif(%s.not().not(), family, 'none'))", recv, a, recv, a), "T")
+					}
+				}
+			}
+		}
+	}
 	ops := []string{"and", "or", "xor", "implies"}
 	for _, op1 := range ops {
 		for _, op2 := range ops {
